@@ -108,7 +108,12 @@ pub(super) mod udp {
 
     impl<const N: usize> Client<'_, N> {
         pub fn new_static(config: ServerConfig<SslConfig>) -> anyhow::Result<Client<'static, N>> {
-            let (key, identity_keys) = config_password_to_keys(&config.password).map_err(|e| anyhow!(e))?;
+            let (key, identity_keys) = if config.cipher.is_aead_2022() {
+                config_password_to_keys(&config.password).map_err(|e| anyhow!(e))?
+            } else {
+                // a legacy cipher derives its key from an ordinary password, on UDP as on TCP
+                (octo_squirrel::protocol::shadowsocks::aead::openssl_bytes_to_key(config.password.as_bytes()), Vec::with_capacity(0))
+            };
             let key: &'static [u8; N] = Box::leak::<'static>(Box::new(key));
             let identity_keys: &'static Vec<[u8; N]> = Box::leak::<'static>(Box::new(identity_keys));
             Ok(Client::<'static> { kind: config.cipher, key, identity_keys })
